@@ -19,7 +19,10 @@ EXPLANATION = (
     'annulus path reverses the inner outline exactly once and the outer never, outer first in vertices and codes, and the '
     'delegation annulus → compound → components keeps origin and kwargs. (R2b) every stored visual key that the visual→mpl '
     'translation renames (keymaps read from the source) is confronted with a small trusted table of matplotlib aliases: a '
-    'caller keyword with the stored key\'s own name must not reach the artist next to the renamed stored value. Not decided: matplotlib\'s meaning of those arguments '
+    'caller keyword with the stored key\'s own name must not reach the artist next to the renamed stored value; (R2c) every '
+    'key of RegionVisual.valid_keys, after the per-artist keymap and the removal list (evaluated from define_mpl_kwargs), is a '
+    'keyword the artist family accepts (trusted table) — as_artist returns an artist whatever valid visual keys the region '
+    'carries. Not decided: matplotlib\'s meaning of those arguments '
     '(trusted table); curve approximation; the visual→mpl key translation values.')
 TRUSTED = ['matplotlib Circle(xy, radius), Ellipse(xy, width, height, angle[deg]), Rectangle(xy, width, height, angle[deg] about xy), '
            'Polygon(xy n×2), Line2D(xs, ys), Arrow(x, y, dx, dy), Text(x, y, text), Path(vertices, codes)',
@@ -304,9 +307,74 @@ def r2b(ctx):
             ctx.ok(art, 'renamed keys cannot meet a caller keyword under another name')
 
 
+# matplotlib keyword arguments per artist family (trusted; only names that can reach the artists from RegionVisual keys,
+# the keymaps and the default tables are listed)
+MPL_KW = {
+    'Patch': {'color', 'edgecolor', 'facecolor', 'fill', 'linestyle', 'linewidth', 'alpha', 'hatch', 'zorder', 'label'},
+    'Line2D': {'color', 'marker', 'markersize', 'markeredgewidth', 'markeredgecolor', 'markerfacecolor', 'fillstyle',
+               'linestyle', 'linewidth', 'dashes', 'alpha', 'zorder', 'label'},
+    'Text': {'color', 'rotation', 'family', 'size', 'style', 'weight', 'fontname', 'fontsize', 'fontstyle', 'fontweight',
+             'ha', 'va', 'alpha', 'zorder', 'usetex', 'label'},
+}
+
+
+def _visual_tables(ctx):
+    """(keymaps per artist, removed keys per artist, valid keys) read from RegionVisual."""
+    from ..tb import class_tables
+    m = ctx.model
+    rv = m.cls('RegionVisual')
+    f = method_or_fail(ctx, rv, '_to_mpl_kwargs')
+    keymaps = {}
+    for n in ast.walk(f.node):
+        if isinstance(n, ast.If) and isinstance(n.test, ast.Compare) and isinstance(n.test.comparators[0], ast.Constant):
+            art = n.test.comparators[0].value
+            for st in n.body:
+                if isinstance(st, ast.Assign) and isinstance(st.value, ast.Dict) and ast.unparse(st.targets[0]) == 'keymap':
+                    keymaps[art] = {ast.literal_eval(k): ast.literal_eval(v) for k, v in zip(st.value.keys, st.value.values)}
+    g = method_or_fail(ctx, rv, 'define_mpl_kwargs')
+    removed = {}
+    for art in ('Patch', 'Line2D', 'Text'):
+        ev = Evaluator(m, hooks={m.method(rv, '_define_default_mpl_kwargs').qualname: lambda e, a, k: DictV([{}]),
+                                 f.qualname: lambda e, a, k: DictV([{}])})
+        out = ev.run(g, [Obj('RegionVisual', {}, 'self', rv), Const(art)], {})
+        rk = out.env.get('remove_keys')
+        ctx.need(isinstance(rk, Tup) and all(isinstance(i, Const) for i in rk.items), g.qualname,
+                 f'removed-key list for {art} not evaluable: {show(rk, 120)}')
+        removed[art] = {i.v for i in rk.items}
+    # keys the translation itself consumes (kwargs.pop('<key>', ...))
+    for n in ast.walk(f.node):
+        if isinstance(n, ast.Call) and ast.unparse(n.func) == 'kwargs.pop' and n.args and isinstance(n.args[0], ast.Constant):
+            for art in removed:
+                removed[art].add(n.args[0].value)
+    valid = class_tables(m, 'RegionVisual').get('valid_keys')
+    ctx.need(isinstance(valid, (list, tuple)) and valid, 'RegionVisual.valid_keys', 'not evaluable')
+    return keymaps, removed, list(valid), g
+
+
+def r2c(ctx):
+    """every key a RegionVisual may hold reaches the artist under a name that artist accepts, or is dropped: as_artist must
+    return an artist for every region, whatever valid visual attributes it carries (e.g. after reading a CRTF file)."""
+    keymaps, removed, valid, g = _visual_tables(ctx)
+    for art in ('Patch', 'Line2D', 'Text'):
+        bad = []
+        for k in valid:
+            fk = keymaps.get(art, {}).get(k, k)
+            if fk in removed[art] or fk in MPL_KW[art]:
+                continue
+            bad.append((k, fk))
+        if bad:
+            ctx.bad(art, 'unaccepted-visual-keys',
+                    f'visual keys {[k for k, _ in bad]} are valid RegionVisual keys but reach matplotlib.{art} as '
+                    f'{sorted({fk for _, fk in bad})}, which it does not accept: as_artist raises for a region carrying them '
+                    "(e.g. any region parsed from a CRTF line with symsize=, labelcolor=, usetex=, ...)", g.loc())
+        else:
+            ctx.ok(art, f'{len(valid)} visual keys: each is renamed to, or is, a keyword of the artist, or is dropped')
+
+
 RULES = [
     RuleDef('R1', 'artist constructor arguments (8 artists)', r1, 8),
     RuleDef('R2', 'caller kwargs override the visual defaults', r2, 8),
     RuleDef('R2b', 'caller keyword vs renamed stored key (matplotlib alias table)', r2b, 3),
+    RuleDef('R2c', 'every valid visual key is accepted by the artist or dropped', r2c, 3),
     RuleDef('R3', 'annulus path: hole orientation, roles, delegation', r3, 3),
 ]
